@@ -163,13 +163,13 @@ Qed.
 Print Assumptions C13_dg_of_tree_shape.
 
 (* the independent canonical form (children canonicalised recursively and sorted by a
-   structural order; no strings) that the check compares the implementation with:
-   equal canonical forms imply isomorphism *)
-Theorem C13_canon_eqb_sound : forall t1 t2,
+   structural total order on trees; no strings) that the check compares the implementation
+   with decides tree isomorphism; so holds_tree demands exactly: == <-> isomorphic *)
+Theorem C13_canon_eqb_iff : forall t1 t2,
   clean_tree_b t1 = true -> clean_tree_b t2 = true ->
-  canon_eqb (canon t1) (canon t2) = true -> tiso t1 t2.
-Proof. exact canon_eqb_sound. Qed.
-Print Assumptions C13_canon_eqb_sound.
+  (canon_eqb (canon t1) (canon t2) = true <-> tiso t1 t2).
+Proof. exact canon_eqb_iff. Qed.
+Print Assumptions C13_canon_eqb_iff.
 
 (* the executable isomorphism test used on the observed graphs decides (soundly) the
    hypothesis of the theorems above *)
